@@ -641,10 +641,7 @@ def excl (ps : PState) (toks : List String) : List String × Bool :=
       if ax == -1 then ([], false)
       else
         match argAxes t.dims ax with
-        | some axes =>
-          let f28 := Excl_vectorT t axes
-          let f24 := Excl_shortStrides t
-          ((if f28 then ["F28"] else []) ++ (if f24 then ["F24"] else []), false)
+        | some _ => ((if Excl_shortStrides t then ["F24"] else []), false)
         | none => ([], false)
     | _, _ => ([], false)
   | _ => ([], false)
